@@ -138,3 +138,41 @@ pub fn scope_put(v: &mut Vec<CompilationScope>, i: usize, s: CompilationScope)
              clause="make() is called only from emit, change_operand and replace_last_pop_with_return (no unchecked encoder call site)"),
     ],
 )
+
+def scan_emit_operand_counts(core):
+    """C14: definitions::make zips the operands it is given with the opcode's operand widths, so a call site that passes FEWER
+    operands than the opcode encodes would emit a short instruction. Every `self.emit(Opcode::X, &[..], ..)` in the compiler
+    must pass at least as many operands as opcode_widths(X) (the table the bytecode unit verifies DEFINITIONS against)."""
+    import os, re
+    here = os.path.dirname(os.path.abspath(__file__))
+    txt = open(os.path.join(here, "..", "bytecode", "prelude.rs")).read()
+    body = txt[txt.index("pub open spec fn opcode_widths"):]
+    body = body[:body.index("\n}\n")]
+    widths = {}
+    for m in re.finditer(r"((?:Opcode::\w+\s*\|?\s*)+)=>\s*seq!\[([^\]]*)\]", body):
+        n = len([x for x in m.group(2).split(",") if x.strip()])
+        for nm in re.findall(r"Opcode::(\w+)", m.group(1)):
+            widths[nm] = n
+    path = os.path.join(core.REPO, "src/compiler/mod.rs")
+    if not os.path.exists(path):
+        raise core.Undecided("lost anchor: src/compiler/mod.rs")
+    src = open(path).read()
+    src = src[:src.index("#[cfg(test)]")] if "#[cfg(test)]" in src else src
+    calls = list(re.finditer(r"self\s*\.emit\(\s*Opcode::(\w+)\s*,\s*&\[((?:[^\[\]]|\[[^\]]*\])*)\]", src))
+    total = len(re.findall(r"\.emit\(", src)) - len(re.findall(r"fn emit\(", src))
+    out = []
+    if len(calls) != total:
+        raise core.Undecided("%d of %d emit call sites have an opcode / operand list that is not a literal (scan cannot judge them)" % (total - len(calls), total))
+    bad = []
+    for m in calls:
+        ops = [x for x in re.split(r",(?![^()]*\))", m.group(2)) if x.strip()]
+        need = widths.get(m.group(1), 0)
+        if len(ops) < need:
+            bad.append("line %d: Opcode::%s needs %d operand(s), %d given" % (src[:m.start()].count("\n") + 1, m.group(1), need, len(ops)))
+    out.append(("emit-operand-counts", "every one of the %d emit call sites of the compiler passes at least as many operands as its opcode encodes" % len(calls), not bad and len(calls) > 50, "; ".join(bad) or "fewer than 50 call sites found"))
+    return out
+
+
+scan_emit_operand_counts.props = ["C14"]
+scan_emit_operand_counts.source = "src/compiler/mod.rs"
+UNIT["pyscans"] = [scan_emit_operand_counts]
